@@ -4,12 +4,14 @@ import importlib
 import json
 import os
 import random
+import subprocess
 import sys
 import time
 import traceback
 
 import aglib
 import qast
+import sexp
 from aglib import log
 
 
@@ -93,6 +95,104 @@ def run_cases(cases, compare=compare_default, binary=None):
     return out
 
 
+def replay_units(x, out):
+    """every dict of a replay file that names a query (or a command line) is one unit to run again"""
+    if isinstance(x, dict):
+        if isinstance(x.get('query'), str) or isinstance(x.get('args'), list):
+            out.append(x)
+        else:
+            for v in x.values():
+                replay_units(v, out)
+    elif isinstance(x, list):
+        for y in x:
+            replay_units(y, out)
+    return out
+
+
+def replay_file(pid, path):
+    """bin/agv check Cnn --replay FILE: run what the file recorded against the binary built from /repo as it is now
+    (and against the model, when the file carries the model's case); exit 1 when the recorded failure shows again"""
+    import regress
+    from props.common import compare_with_pct
+    j = json.load(open(path))
+    print('replay of %s: %s' % (path, j.get('kind', '')), flush=True)
+    if j.get('what'):
+        print('  recorded: %s' % str(j['what'])[:600])
+    if j.get('broken_theorem_or_file'):
+        print('  recorded proof break: %s' % str(j['broken_theorem_or_file'])[:600])
+        hyg = aglib.hygiene()
+        proof = aglib.check_property_file(pid)
+        if hyg or not proof['ok']:
+            print('  the property file still does not check: %s' % (hyg or proof.get('broken') or proof.get('bad_axioms')))
+            print('VIOLATION property=%s replay=%s no-failing-input-found' % (pid, path), flush=True)
+            return 1
+        print('  the property file checks now (%s statements)' % proof['obligations'])
+    again = 0
+    undecided = 0
+    units = replay_units({k: v for k, v in j.items() if k != 'run'}, [])
+    for n, u in enumerate(units):
+        q = u.get('query')
+        lines = u.get('input_lines')
+        if isinstance(u.get('input'), str):
+            lines = [u['input']]
+        elif isinstance(u.get('input'), list):
+            lines = u['input']
+        lines = [l for l in (lines or []) if isinstance(l, str) and l != '...']
+        inp = ''.join(lines).encode('utf8')
+        mode = u.get('mode') or u.get('output_mode') or 'json'
+        if not isinstance(mode, str) or mode in ('legacy', 'text'):
+            mode = None
+        wid = u.get('witness')
+        if wid:
+            w = [w for w in regress.W if w['id'] == wid]
+            why = regress.run_witness(w[0]) if w else 'witness %s is no longer in tools/regress.py' % wid
+            print('  [%d] regression witness %s: %s' % (n, wid, why or 'passes now'))
+            again += 1 if why else 0
+            continue
+        if q is None:
+            p = subprocess.run([aglib.AGRIND] + [str(a) for a in u['args']], input=inp, stdout=subprocess.PIPE, stderr=subprocess.PIPE, env=aglib.ENV, timeout=60)
+            o = {'rc': p.returncode, 'out': p.stdout, 'err': p.stderr, 'timed_out': False}
+            print('  [%d] agrind %s' % (n, ' '.join(repr(str(a)) for a in u['args'])))
+        else:
+            extra = ()
+            if isinstance(u.get('args'), list):          # a recorded command line: the options as they were
+                mode, extra = None, [str(a) for a in u['args']]
+            o = aglib.run_impl_one(q, inp, mode, extra)
+            print('  [%d] query: %s   (%d input lines, %s)' % (n, q, len(lines), ('-o ' + mode) if mode else ' '.join(extra) or 'default output'))
+        out = o['out'].decode('utf8', 'replace')
+        print('      now: rc=%s%s stdout=%r stderr=%r' % (o['rc'], ' TIMED OUT' if o['timed_out'] else '', out[:400], o['err'].decode('utf8', 'replace')[-300:]))
+        decided = False
+        if 'expected_stdout' in u:
+            decided = True
+            if out[:2000] != u['expected_stdout']:
+                print('      still not the expected output %r' % u['expected_stdout'][:400])
+                again += 1
+            else:
+                print('      the expected output')
+        if isinstance(u.get('model_case'), str) and q is not None:
+            decided = True
+            mr = aglib.run_model_many([u['model_case']])[0]
+            model = aglib.parse_model_result(mr)
+            impl = aglib.parse_impl_json(o, any(isinstance(st, list) and st and str(st[0]) in ('agg', 'sort') for st in sexp.loads(u['model_case'])[2]))
+            why = compare_with_pct(None, impl, model)
+            if why:
+                print('      model and implementation still differ: %s' % why)
+                again += 1
+            else:
+                print('      model and implementation agree')
+        if not decided:
+            undecided += 1
+            print('      (no recorded expectation to compare with: judge from the description above, or run the check itself: %s)'
+                  % (j.get('run') or {}).get('how', 'bin/agv check %s' % pid))
+    if not units:
+        print('  the file names no single input (a history or a schedule): run %s' % (j.get('run') or {}).get('how', 'bin/agv check %s' % pid))
+    if again:
+        print('VIOLATION property=%s replay=%s%s' % (pid, path, '' if j.get('kind') == 'concrete failing input' else ' no-failing-input-found'), flush=True)
+        return 1
+    print('replay: nothing recorded in the file fails now (%d unit(s), %d without a recorded expectation)' % (len(units), undecided), flush=True)
+    return 0
+
+
 def main(pid, tier, seed, replay=None):
     t_start = time.time()
     mod = importlib.import_module('props.' + pid.lower())
@@ -142,6 +242,10 @@ def main(pid, tier, seed, replay=None):
     aglib.build_model()
     fcntl.flock(lockf, fcntl.LOCK_UN)
     lockf.close()
+
+    aglib.REPLAY_META.update({'verif_seed': seed, 'tier': tier, 'how': 'VERIF_SEED=%s bin/agv check %s --tier %s' % (seed, pid, tier)})
+    if replay:
+        return replay_file(pid, replay)
 
     # 3..5 property specific exploration
     from props.common import replay_known
